@@ -59,6 +59,7 @@ type Run struct {
 	samples   []any
 	outcomes  map[string]int
 	engineErr []string
+	byTag     map[string]int
 	Assume    []string
 	replayIn  string
 }
@@ -174,6 +175,10 @@ func (r *Run) Report(v Violation) {
 		}
 	}
 	r.violCount++
+	if r.byTag == nil {
+		r.byTag = map[string]int{}
+	}
+	r.byTag[v.Clause+" "+fmt.Sprint(v.Tags)]++
 	if old := r.viol[v.Clause]; old == nil || v.Cost < old.Cost {
 		vv := v
 		r.viol[v.Clause] = &vv
@@ -285,6 +290,16 @@ func (r *Run) Finish(c Coverage) {
 		os.Exit(2)
 	}
 	if r.violCount > 0 {
+		if os.Getenv("VERIF_VERBOSE") != "" {
+			ks := make([]string, 0, len(r.byTag))
+			for k := range r.byTag {
+				ks = append(ks, k)
+			}
+			sort.Strings(ks)
+			for _, k := range ks {
+				fmt.Printf("  unexplained: %s x%d\n", k, r.byTag[k])
+			}
+		}
 		clauses := make([]string, 0, len(r.viol))
 		for k := range r.viol {
 			clauses = append(clauses, k)
